@@ -238,7 +238,7 @@ func workerStarts(g *G, n int) []uint64 {
 }
 
 func genWorkerV1(g *G) {
-	n := 40
+	n := 160
 	if g.thorough {
 		n = 600
 	}
@@ -248,7 +248,7 @@ func genWorkerV1(g *G) {
 }
 
 func genWorkerV2(g *G) {
-	n := 40
+	n := 160
 	if g.thorough {
 		n = 600
 	}
